@@ -833,11 +833,15 @@ func (e *connectWireError) UnmarshalJSON(data []byte) error {
 		return err
 	}
 	if wire.Code == "" {
-		return nil
+		return errors.New("error has no code")
 	}
 	var code Code
 	if err := code.UnmarshalText([]byte(wire.Code)); err != nil {
 		return err
+	}
+	if code == 0 {
+		// Zero is the OK status in gRPC; it never describes an error.
+		return fmt.Errorf("invalid code %q", wire.Code)
 	}
 	e.code = code
 	if wire.Message != "" {
